@@ -31,18 +31,18 @@ structure Ctx.Ok (c : Ctx) : Prop where
   defAtoms : ∀ d ∈ c.defs, ∀ a ∈ d.2.atoms, a ∈ c.dom
   defOk    : ∀ d ∈ c.defs, d.2.Ok
 
-def renRule (c : Ctx) (r : Rule) : Rule := ⟨r.choice, renHead c.m r.head, renBody c.m r.body⟩
-def useRule (c : Ctx) (r : Rule) (n : Nat) : Rule := ⟨r.choice, renHead c.m r.head, .normal [(n : Int)]⟩
-def defRule (c : Ctx) (d : Nat × Body) : Rule := ⟨false, [d.1], renBody c.m d.2⟩
+def renRule (m : Nat → Nat) (r : Rule) : Rule := ⟨r.choice, renHead m r.head, renBody m r.body⟩
+def useRule (m : Nat → Nat) (r : Rule) (n : Nat) : Rule := ⟨r.choice, renHead m r.head, .normal [(n : Int)]⟩
+def defRule (m : Nat → Nat) (d : Nat × Body) : Rule := ⟨false, [d.1], renBody m d.2⟩
 
 /-- `P'` is a translation of `P`: every rule is renamed, or dropped when it is a choice over nothing, or split through
     the auxiliary atom that stands for its body; every auxiliary atom has its defining rule; nothing else is there. -/
 structure Trans (c : Ctx) (P P' : List Rule) : Prop where
   inOk : ∀ r ∈ P, (∀ a ∈ r.head, a ∈ c.dom) ∧ (∀ a ∈ r.body.atoms, a ∈ c.dom) ∧ r.body.Ok
-  s1 : ∀ r' ∈ P', (∃ r ∈ P, r' = renRule c r) ∨ (∃ d ∈ c.defs, r' = defRule c d) ∨
-        (∃ r ∈ P, ∃ n, (n, r.body) ∈ c.defs ∧ r' = useRule c r n)
-  s2 : ∀ r ∈ P, (r.choice = true ∧ r.head = []) ∨ renRule c r ∈ P' ∨ ∃ n, (n, r.body) ∈ c.defs ∧ useRule c r n ∈ P'
-  s3 : ∀ d ∈ c.defs, defRule c d ∈ P'
+  s1 : ∀ r' ∈ P', (∃ r ∈ P, r' = renRule c.m r) ∨ (∃ d ∈ c.defs, r' = defRule c.m d) ∨
+        (∃ r ∈ P, ∃ n, (n, r.body) ∈ c.defs ∧ r' = useRule c.m r n)
+  s2 : ∀ r ∈ P, (r.choice = true ∧ r.head = []) ∨ renRule c.m r ∈ P' ∨ ∃ n, (n, r.body) ∈ c.defs ∧ useRule c.m r n ∈ P'
+  s3 : ∀ d ∈ c.defs, defRule c.m d ∈ P'
 
 /-- the input interpretation seen through the map -/
 def Ctx.R (c : Ctx) (X' : I) : I := fun a => c.dom.contains a && X' (c.m a)
@@ -346,7 +346,7 @@ theorem out_ok : ∀ r' ∈ P', r'.body.Ok := by
 
 /-- head atoms of the output: the false atom, an image, or an auxiliary atom in its own defining rule -/
 theorem out_heads (r' : Rule) (hr' : r' ∈ P') (n : Nat) (hn : n ∈ r'.head) :
-    n = 1 ∨ (∃ a ∈ c.dom, c.m a = n) ∨ (∃ d ∈ c.defs, d.1 = n ∧ r' = defRule c d) := by
+    n = 1 ∨ (∃ a ∈ c.dom, c.m a = n) ∨ (∃ d ∈ c.defs, d.1 = n ∧ r' = defRule c.m d) := by
   have hren : ∀ r ∈ P, n ∈ renHead c.m r.head → n = 1 ∨ (∃ a ∈ c.dom, c.m a = n) := by
     intro r hr hm
     unfold renHead at hm
@@ -369,8 +369,8 @@ theorem out_heads (r' : Rule) (hr' : r' ∈ P') (n : Nat) (hn : n ∈ r'.head) :
 
 /-- **forth**: a stable model of the input, extended by the values of the auxiliary atoms, is a stable model of the
     output in which the false atom is false -/
-theorem translation_stable (hs : Stable P X) : Stable P' (c.E X X) ∧ c.E X X 1 = false := by
-  refine ⟨?_, E_one ok X X⟩
+theorem translation_stable (hs : Stable P X) : Stable P' (c.E X X) ∧ c.E X X 1 = false ∧ c.R (c.E X X) = X := by
+  suffices h : Stable P' (c.E X X) ∧ c.R (c.E X X) = X from ⟨h.1, E_one ok X X, h.2⟩
   have hPok : ∀ r ∈ P, r.body.Ok := fun r hr => (tr.inOk r hr).2.2
   have hXdom : ∀ a, X a = true → a ∈ c.dom := by
     intro a ha
@@ -385,7 +385,7 @@ theorem translation_stable (hs : Stable P X) : Stable P' (c.E X X) ∧ c.E X X 1
         | false => rfl
         | true => exact absurd (hXdom a hx) ha
       simp [Ctx.R, ha, this]
-  refine ⟨modelR_forth ok tr X X hs.1, ?_⟩
+  refine ⟨⟨modelR_forth ok tr X X hs.1, ?_⟩, RX⟩
   intro Y' hsub hm
   have hb := modelR_back ok tr (c.E X X) Y' hsub (E_one ok X X) hm
   rw [RX] at hb
